@@ -1118,3 +1118,71 @@ func ruleBMSingleBucket(r *core.Reporter) {
 	}
 	r.Floor("insertions into BucketManager.buckets", n, 1)
 }
+
+func init() {
+	register(&core.Rule{ID: "R-BM-TOUCH", Props: []string{"C13", "C16"}, Doc: "BucketManager.getBucket refreshes a bucket's lastAccess on every hit, unconditionally: from the found-edge of the map lookup every path to a return stores lastAccess. The cleanup loop deletes buckets whose lastAccess is older than cleanupFreq — a lazily refreshed stamp lets it delete the bucket of a host in continuous use, and the bucket recreated on the next call is full, unpenalised and at the configured rate (burst beyond capacity + T·rate, a running 429 penalty forgotten)", Run: ruleBMTouch})
+}
+
+func ruleBMTouch(r *core.Reporter) {
+	p := r.P
+	gb := p.Func(rel(pkgRL), "(*BucketManager).getBucket")
+	if gb == nil {
+		r.Undecided("BucketManager.getBucket", "", "anchor not found")
+		return
+	}
+	r.Analysed(gb)
+	// is there a cleanup that reads lastAccess at all?
+	cleans := false
+	for _, fn := range p.FuncsInPkg(rel(pkgRL)) {
+		for _, f := range withAnon(fn) {
+			hasDelete, readsStamp := false, false
+			allInstrs(f, func(in ssa.Instruction) {
+				if cc := ir.AsCall(in); cc != nil && ir.CallName(cc) == "builtin.delete" {
+					hasDelete = true
+				}
+				if u, ok := in.(*ssa.UnOp); ok && u.Op == token.MUL {
+					if _, fld, okf := ir.FieldOf(u.X); okf && fld == "lastAccess" {
+						readsStamp = true
+					}
+				}
+			})
+			if hasDelete && readsStamp {
+				cleans = true
+			}
+		}
+	}
+	if !cleans {
+		r.Held("getBucket/touch", 0, "no cleanup decides on lastAccess")
+		return
+	}
+	var hit *ir.IfInfo
+	for _, ii := range ir.Ifs(gb) {
+		if ex, ok := ii.Atom.V.(*ssa.Extract); ok && ex.Index == 1 {
+			if lk, isLk := ex.Tuple.(*ssa.Lookup); isLk {
+				if _, f, okf := fieldOfLoad(lk.X); okf && f == "buckets" {
+					iic := ii
+					hit = &iic
+					break
+				}
+			}
+		}
+	}
+	if hit == nil {
+		r.Undecided("getBucket/touch", fnPos(p, gb), "map lookup with comma-ok on buckets not found")
+		return
+	}
+	touch := func(in ssa.Instruction) bool {
+		st, ok := in.(*ssa.Store)
+		if !ok {
+			return false
+		}
+		_, f, okf := ir.FieldOf(st.Addr)
+		return okf && f == "lastAccess"
+	}
+	start := ir.EdgePt(hit.If.Block(), hit.EdgeWhen(true))
+	if ret, stale := ir.PathExists([]ir.Pt{start}, ir.Opts{Stop: touch}, ir.IsExit); stale {
+		r.Violated("getBucket/touch", p.InstrPos(ret), "a hit can return the bucket without refreshing lastAccess: the cleanup loop deletes on exactly that stamp, so a host in continuous use loses its bucket (and with it a running penalty, a lowered rate and its spent tokens) whenever a tick falls into a gap")
+	} else {
+		r.Held("getBucket/touch", 1, "every hit refreshes lastAccess before returning")
+	}
+}
